@@ -696,6 +696,16 @@ pub fn analyze_tuple_pattern_for_complement(
         _ => return None,
     };
 
+    // Field-specific complement narrowing describes "this tuple, with that field excluded". It
+    // only makes sense when the value is known to be exactly one tuple type that the pattern is
+    // about; on a union scrutinee (`'int | B[A]`) the other variants are not covered at all.
+    let Some(Type::Tuple(value_tuple_id)) = program.lookup_type(value_type_id) else {
+        return None;
+    };
+    if program.lookup_tuple(*value_tuple_id)?.name != tuple_pattern.name {
+        return None;
+    }
+
     let field_type_ids = get_tuple_field_types(value_type_id, program)?;
 
     if tuple_pattern.fields.len() != field_type_ids.len() {
